@@ -154,7 +154,17 @@ class WriteProxy:
         c, f, p = self._c, self._f, self._p
         if c.depth:
             return f.write(data)
-        fault = c.before("write", p, len(data))
+        # an unbuffered binary handle hands the data to the kernel in one write(2), which may
+        # legally accept fewer bytes and say so in its return value ("short" fault); the buffered
+        # layers of io retry that themselves, so the fault only exists for raw handles
+        kind = "write-raw" if isinstance(f, io.RawIOBase) else "write"
+        fault = c.before(kind, p, len(data))
+        if fault is not None and fault[0] == "short":
+            n = max(0, min(int(fault[1]), len(data)))
+            with c.real():
+                r = f.write(data[:n]) if n else 0
+            c.after(kind, p)
+            return r
         if fault is not None and fault[0] == "partial":
             n = max(0, min(int(fault[1]), len(data)))
             with c.real():
@@ -164,15 +174,15 @@ class WriteProxy:
             if then == "crash":
                 c.die()
             e = OSError(then, os.strerror(then), p)
-            c.after("write", p, e)
+            c.after(kind, p, e)
             raise e
         try:
             with c.real():
                 r = f.write(data)
         except BaseException as e:
-            c.after("write", p, e)
+            c.after(kind, p, e)
             raise
-        c.after("write", p)
+        c.after(kind, p)
         return r
 
     def flush(self):
@@ -463,7 +473,13 @@ def install():
         if c is None or c.depth or fd not in c.fds:
             return R["os_write"](fd, data)
         p = c.fds[fd]
-        fault = c.before("write", p, len(data))
+        fault = c.before("write-raw", p, len(data))
+        if fault is not None and fault[0] == "short":
+            n = max(0, min(int(fault[1]), len(data)))
+            with c.real():
+                r = R["os_write"](fd, data[:n]) if n else 0
+            c.after("write-raw", p)
+            return r
         if fault is not None and fault[0] == "partial":
             n = max(0, min(int(fault[1]), len(data)))
             with c.real():
@@ -472,15 +488,15 @@ def install():
             if fault[2] == "crash":
                 c.die()
             e = OSError(fault[2], os.strerror(fault[2]), p)
-            c.after("write", p, e)
+            c.after("write-raw", p, e)
             raise e
         try:
             with c.real():
                 r = R["os_write"](fd, data)
         except BaseException as e:
-            c.after("write", p, e)
+            c.after("write-raw", p, e)
             raise
-        c.after("write", p)
+        c.after("write-raw", p)
         return r
 
     def s_os_close(fd):
